@@ -224,12 +224,13 @@ def delivered(sess, spec, sched, model, ctx):
         names.setdefault(obj.name, []).append(iid)
     rep_ind = {}
     for nm, ids in names.items():
-        if len(ids) == 1 and nm in sol.indicators:
-            rep_ind[ids[0]] = sol.indicators[nm]
+        if nm in sol.indicators:
+            for iid in ids:  # indicators sharing a display name share the delivered value
+                rep_ind[iid] = sol.indicators[nm]
     return rep_buf, rep_ind
 
 
-def soundness_case(ctx, case, families, check_name, enum_cap_small=120, extra_nt=None, sig_extra=None):
+def soundness_case(ctx, case, families, check_name, enum_cap_small=120, extra_nt=None, sig_extra=None, require_binding=True):
     """Generic soundness property: every admitted schedule is weak-valid for `families`."""
     spec, pins, seed = case["spec"], case["pins"], case["seed"]
     ex = Explorer(ctx, spec, seed)
@@ -262,7 +263,7 @@ def soundness_case(ctx, case, families, check_name, enum_cap_small=120, extra_nt
             }
             ctx.violation(rec)
             continue
-        nt = origin != "default" and binding(spec, sched, families)
+        nt = origin != "default" and (not require_binding or binding(spec, sched, families))
         if nt and (extra_nt is None or extra_nt(spec, sched)):
             ctx.nontrivial_case({"spec": spec, "sched": to_candidate(spec, sched)})
             ctx.event("nontrivial")
